@@ -48,16 +48,42 @@ def cases(draw, procs=False):
     for m in spec['modules']:
         if draw(st.integers(0, 3)) == 0:
             m.setdefault('acts', []).append(['perturb_random'])
+    # test objects that are false in a boolean context
+    for m in spec['modules']:
+        for node in _case_nodes(m['tree']):
+            if draw(st.integers(0, 5)) == 0:
+                node['falsy'] = True
     names = [L['name'] for L in spec['layers']]
-    opts = {'seed': draw(SEEDS), 'layer': draw(common.layer_pattern_strategy(names + ['UnitTests'])),
+    # where the options come from: the command line, or (partly) the defaults a test script passes to run()
+    opts = {'split': draw(st.sampled_from(['args', 'args', 'seed-in-defaults', 'all-in-defaults', 'shuffle-in-defaults'])),
+            'seed': draw(SEEDS), 'layer': draw(common.layer_pattern_strategy(names + ['UnitTests'])),
             'verbose': draw(st.integers(0, 1)), 'explicit': draw(st.sampled_from([True, True, False]))}
     if procs:
         opts['j'] = draw(st.sampled_from([None, 2, 3]))
     return {'spec': spec, 'opts': opts}
 
 
-def listing(spec, args, disk=False):
-    run = drive.run_inproc(spec, args + ['--list-tests'], disk=disk)
+def _case_nodes(node):
+    if node['t'] == 'c':
+        yield node
+    for ch in node.get('ch') or ():
+        yield from _case_nodes(ch)
+
+
+def split_opts(split, seed, explicit=True):
+    """(defaults, args) carrying --shuffle [--shuffle-seed=N]"""
+    sh, sd = ['--shuffle'], (['--shuffle-seed=%d' % seed] if explicit else [])
+    if split == 'seed-in-defaults':
+        return sd, sh
+    if split == 'all-in-defaults':
+        return sh + sd, []
+    if split == 'shuffle-in-defaults':
+        return sh, sd
+    return [], sh + sd
+
+
+def listing(spec, args, disk=False, defaults=None):
+    run = drive.run_inproc(spec, args + ['--list-tests'], disk=disk, defaults=defaults)
     p = parse.parse(run.out)
     return run, p, {ln: names for ln, names in p.listing}
 
@@ -96,7 +122,7 @@ def check_orders(tag, base, got, seed, viol, restrict=None):
 
 class InProc(Part):
     name = 'inproc'
-    examples = {'quick': 1000, 'thorough': 16000}
+    examples = {'quick': 3000, 'thorough': 30000}
 
     def strategy(self, tier):
         return cases()
@@ -108,15 +134,15 @@ class InProc(Part):
         viol = []
         run0, p0, base = listing(spec, [])
         viol += common.run_escaped(run0, 'C11')
-        sh = ['--shuffle', '--shuffle-seed=%d' % seed]
-        run1, p1, listed = listing(spec, sh)
+        dflt, sh = split_opts(o.get('split', 'args'), seed)
+        run1, p1, listed = listing(spec, sh, defaults=dflt)
         viol += common.run_escaped(run1, 'C11')
         if not viol:
             check_orders('list', base, listed, seed, viol, restrict=base)
             if p1.seeds != [seed]:
                 viol.append(('C11/seed-not-reported/list', 'seed lines %s, used %d' % (p1.seeds, seed)))
             # run with the same seed
-            run2 = drive.run_inproc(spec, sh + ['-v'] * o['verbose'])
+            run2 = drive.run_inproc(spec, sh + ['-v'] * o['verbose'], defaults=dflt)
             viol += common.run_escaped(run2, 'C11')
             if run2.exc is None:
                 ex = executed_order(spec, run2)
@@ -127,7 +153,7 @@ class InProc(Part):
                     viol.append(('C11/seed-not-reported/run', 'seed lines %s' % parse.parse(run2.out).seeds))
             # with --layer filtering: retained layers keep their order
             if o['layer']:
-                run3, p3, listed3 = listing(spec, sh + common.args_of({'layer': o['layer']}))
+                run3, p3, listed3 = listing(spec, sh + common.args_of({'layer': o['layer']}), defaults=dflt)
                 viol += common.run_escaped(run3, 'C11')
                 sel = model.select(spec, layer_pats=o['layer'])
                 for ln in sel:
@@ -146,7 +172,9 @@ class InProc(Part):
                         check_orders('implicit-seed', base, listed4, p4.seeds[0], viol, restrict=base)
         big = sum(1 for v in base.values() if len(v) >= 3)
         moved = any(listed.get(ln) != base[ln] for ln in base) if not viol else True
-        labels = ['layers>=2' if len(base) >= 2 else 'layers<2']
+        labels = ['layers>=2' if len(base) >= 2 else 'layers<2', 'options:' + o.get('split', 'args')]
+        if any(n.get('falsy') for m in spec['modules'] for n in _case_nodes(m['tree'])):
+            labels.append('falsy-tests')
         if o['layer']:
             labels.append('--layer')
         if not o['explicit']:
@@ -171,9 +199,9 @@ class Procs(Part):
         viol += common.run_escaped(run0, 'C11')
         if viol:
             return Outcome(viol)
-        args = ['--shuffle'] + (['--shuffle-seed=%d' % seed] if o['explicit'] else [])
+        dflt, args = split_opts(o.get('split', 'args'), seed, o['explicit'])
         args += common.args_of({'j': o.get('j')})
-        run = drive.run_inproc(spec, args, disk=True)
+        run = drive.run_inproc(spec, args, disk=True, defaults=dflt)
         viol += common.run_escaped(run, 'C11')
         w = traceana.World(spec)
         pids = traceana.by_pid(run.trace)
